@@ -79,7 +79,7 @@ def _entity(d, lex):
     vu = ' validUntil="%s"' % d["valid_until"] if d.get("valid_until") else ""
     parts.append('<md:EntityDescriptor xmlns:md="%s" xmlns:ds="%s" xmlns:saml="%s" xmlns:mdattr="%s" entityID="%s"%s>' % (
         MD, DS, SAML, MDATTR, esc(d["eid"]), vu))
-    if d.get("entity_categories") or d.get("entity_category_support") or d.get("valueless_entity_attribute"):
+    if d.get("entity_categories") or d.get("entity_category_support") or d.get("valueless_entity_attribute") or d.get("empty_value_entity_attribute"):
         typ = ' xmlns:xs="http://www.w3.org/2001/XMLSchema" xmlns:xsi="http://www.w3.org/2001/XMLSchema-instance" xsi:type="%s"' % lex["ecat_type"] \
             if lex.get("ecat_type") else ""
         attrs = ""
@@ -93,6 +93,8 @@ def _entity(d, lex):
             elif d.get(key):
                 vals = "".join("<saml:AttributeValue%s>%s</saml:AttributeValue>" % (typ, esc(c)) for c in d[key])
                 attrs += '<saml:Attribute Name="%s" NameFormat="urn:oasis:names:tc:SAML:2.0:attrname-format:uri">%s</saml:Attribute>' % (aname, vals)
+        if d.get("empty_value_entity_attribute"):
+            attrs = '<saml:Attribute Name="%s" NameFormat="urn:oasis:names:tc:SAML:2.0:attrname-format:uri"><saml:AttributeValue/></saml:Attribute>' % esc(d["empty_value_entity_attribute"]) + attrs
         if d.get("valueless_entity_attribute"):
             # an entity attribute that is a bare flag (no AttributeValue), in front of the others
             attrs = '<saml:Attribute Name="%s" NameFormat="urn:oasis:names:tc:SAML:2.0:attrname-format:uri"/>' % esc(d["valueless_entity_attribute"]) + attrs
@@ -104,8 +106,10 @@ def _entity(d, lex):
     # role descriptors for other protocols than SAML 2.0 (d["saml11"] = {"idp": {...}, "sp": {...}, "first": bool}): same entity, same role
     # element, endpoints of their own - nothing of them is a SAML 2.0 endpoint of the entity
     other = d.get("saml11") or {}
-    idps = [(d.get("idp"), PROTO)] + [(other.get("idp"), PROTO11)]
-    sps = [(d.get("sp"), PROTO)] + [(other.get("sp"), PROTO11)] + [(d.get("sp_second"), PROTO)]      # sp_second: a further SAML 2.0 SPSSODescriptor
+    # (proto_list: the SAML 2.0 descriptors also list other protocols, separated by any white space an xs:list allows)
+    p20 = d.get("proto_list") or PROTO
+    idps = [(d.get("idp"), p20)] + [(other.get("idp"), PROTO11)]
+    sps = [(d.get("sp"), p20)] + [(other.get("sp"), PROTO11)] + [(d.get("sp_second"), PROTO)]      # sp_second: a further SAML 2.0 SPSSODescriptor
     if other.get("first"):
         idps.reverse()
         sps.reverse()
